@@ -347,6 +347,7 @@ pub fn next_key() -> Option<Key> {
 
 /// `std::io::Stdin` stand-in for `runtime::read_byte_stdin`: serves the simulated stream while
 /// armed, the real one otherwise.
+#[derive(Debug)]
 pub struct StdinSeam(pub std::io::Stdin);
 
 impl std::io::Read for StdinSeam {
